@@ -296,6 +296,15 @@ Section WithBody.
   Definition kw_names_read (p : pipeline) (kw : alist) (o : str) : list str :=
     flat_map (fun f => filter (fun cur => negb (ahas (bound f) cur)) (pnames f)) (needed_top p kw o).
 
+  (* the root arguments of o, from the meaning: the non-output names that the evaluation of o without any
+     supplied keyword reads (from keywords or defaults) *)
+  Definition spec_roots (p : pipeline) (o : str) : list str :=
+    sort_strs (dedup (flat_map (fun f => filter (fun cur => negb (ahas (bound f) cur) && negb (is_output p cur))
+                                                (pnames f)) (needed_top p [] o))).
+  (* no needed parameter is without a value *)
+  Definition sufficient (p : pipeline) (kw : alist) (o : str) : Prop :=
+    forall f cur, In f (needed_top p kw o) -> In cur (pnames f) -> source_of p kw f cur <> SMissing.
+
   (* the argument list the specification passes to f *)
   Definition eval_args (p : pipeline) (kw : alist) (f : pfunc) : result alist :=
     args_with (eval (length p) p kw) p kw f.
